@@ -13,6 +13,7 @@ import (
 	"sort"
 	"strings"
 	"sync"
+	"sync/atomic"
 
 	"github.com/xuperchain/xupercore/bcs/ledger/xledger/state"
 	pb "github.com/xuperchain/xupercore/bcs/ledger/xledger/xldgpb"
@@ -133,6 +134,13 @@ func producerMiner(w *world.World) (*miner.Miner, string, error) {
 		}
 	}()
 	if cons == nil {
+		// the repository's `single` consensus itself, built the way the pluggable object builds it
+		if sg, err := w.NewSingle("M"); err == nil {
+			cons = hookedConsensus{ConsensusImplInterface: sg}
+			kind = "single (consensus.NewPluginConsensus)"
+		}
+	}
+	if cons == nil {
 		cons = stubConsensus{}
 	}
 	w.Chain.Consensus = cons
@@ -178,6 +186,8 @@ type Case struct {
 	// multi-step cases on the big universe
 	Big    bool   `json:"big,omitempty"`
 	Arrive string `json:"arrive,omitempty"`
+	// ArriveStep: the producer step (1-based) inside whose CalculateBlock the transaction arrives (0 = 1)
+	ArriveStep int `json:"arrive_step,omitempty"`
 	Steps  int    `json:"steps,omitempty"`
 }
 
@@ -189,6 +199,7 @@ type result struct {
 	block     []string
 	violation []core.Violation
 	consKind  string
+	arrivals  int // transactions that arrived inside CalculateBlock
 	skipped   string
 }
 
@@ -276,6 +287,10 @@ func runCase(c Case) (res result) {
 	rinst := newNode()
 	defer rinst.Close()
 	r := rinst.W
+	if why := replicaConsensusRefuses(r, wire); why != "" {
+		bad("c13.replica.consensus_refused", "the replica's own single consensus refuses the produced block %v: %s", res.block, why)
+		return
+	}
 	if ok, _ := r.Ledger.VerifyBlock(wire, "c13"); !ok {
 		bad("c13.replica.verify_block", "replica's VerifyBlock refuses the produced block %v", res.block)
 		return
@@ -340,14 +355,27 @@ func runBig(c Case) (res result) {
 	m, kind, _ := producerMiner(w)
 	res.consKind = kind
 	arrived := false
-	w.Chain.Consensus = stubConsensus{onCalc: func() {
-		if c.Arrive != "" && !arrived {
+	calcCalls := 0
+	onCalc := func() {
+		calcCalls++
+		at := c.ArriveStep
+		if at == 0 {
+			at = 1
+		}
+		if c.Arrive != "" && !arrived && calcCalls == at {
 			arrived = true
+			res.arrivals++
 			if err := w.Submit(u.Tx(c.Arrive)); err != nil {
 				bad("c13.fixture", "arriving tx refused: %v", err)
 			}
 		}
-	}}
+	}
+	if hc, ok := w.Chain.Consensus.(hookedConsensus); ok {
+		hc.onCalc = onCalc
+		w.Chain.Consensus = hc
+	} else {
+		w.Chain.Consensus = stubConsensus{onCalc: onCalc}
+	}
 	ctx := &xctx.BaseCtx{XLog: w.Log, Timer: timer.NewXTimer()}
 	var blocks []*pb.InternalBlock
 	for step := 0; step < c.Steps; step++ {
@@ -387,6 +415,10 @@ func runBig(c Case) (res result) {
 	r := rinst.W
 	for k, blk := range blocks {
 		wire := world.WireBlock(blk)
+		if why := replicaConsensusRefuses(r, wire); why != "" {
+			bad("c13.replica.consensus_refused", "the replica's own single consensus refuses block %d %s: %s", k+1, res.block[k], why)
+			return
+		}
 		if ok, _ := r.Ledger.VerifyBlock(wire, "c13"); !ok {
 			bad("c13.replica.verify_block", "replica's VerifyBlock refuses block %d %s", k+1, res.block[k])
 			return
@@ -451,7 +483,46 @@ func orderViolation(pool []*pb.Transaction) string {
 	return ""
 }
 
-// stub consensus with the answers of `single`.
+// replicaConsensusRefuses asks a `single` consensus object built over the
+// replica's own ledger (node key P: not the miner) whether the block comes from
+// the entitled producer, as the replica's batchConfirmBlock does first.
+func replicaConsensusRefuses(r *world.World, wire *pb.InternalBlock) (why string) {
+	defer func() {
+		if x := recover(); x != nil {
+			why = fmt.Sprintf("panic: %v", x)
+		}
+	}()
+	sg, err := r.NewSingle("P")
+	if err != nil {
+		return "" // recorded through consensus_object: the stub is in use then
+	}
+	atomic.AddInt64(&replicaConsensusChecks, 1)
+	ctx := &xctx.BaseCtx{XLog: r.Log, Timer: timer.NewXTimer()}
+	ok, err := sg.CheckMinerMatch(ctx, state.NewBlockAgent(world.CloneBlock(wire)))
+	if !ok {
+		return fmt.Sprintf("CheckMinerMatch=false err=%v", err)
+	}
+	return ""
+}
+
+var replicaConsensusChecks, arrivalsTotal int64
+
+// hookedConsensus is the repository's `single` consensus with a hook inside
+// CalculateBlock (the window in which a transaction can arrive while the
+// block is being computed).
+type hookedConsensus struct {
+	base.ConsensusImplInterface
+	onCalc func()
+}
+
+func (h hookedConsensus) CalculateBlock(block cctx.BlockInterface) error {
+	if h.onCalc != nil {
+		h.onCalc()
+	}
+	return h.ConsensusImplInterface.CalculateBlock(block)
+}
+
+// stub consensus with the answers of `single` (only when `single` cannot be built).
 type stubConsensus struct {
 	onCalc func()
 }
@@ -463,7 +534,12 @@ func (stubConsensus) CheckMinerMatch(ctx xctx.XContext, block cctx.BlockInterfac
 func (stubConsensus) ProcessBeforeMiner(timestamp int64) ([]byte, []byte, error) {
 	return nil, nil, nil
 }
-func (stubConsensus) CalculateBlock(block cctx.BlockInterface) error      { return nil }
+func (s stubConsensus) CalculateBlock(block cctx.BlockInterface) error {
+	if s.onCalc != nil {
+		s.onCalc()
+	}
+	return nil
+}
 func (stubConsensus) ProcessConfirmBlock(block cctx.BlockInterface) error { return nil }
 func (stubConsensus) GetConsensusStatus() (base.ConsensusStatus, error)   { return nil, nil }
 
@@ -496,6 +572,39 @@ func run(tier core.Tier) *core.Report {
 	}
 	for _, f := range bigFamilies {
 		cases = append(cases, Case{Family: f.Name, Submit: f.Txs, Big: true, Arrive: f.Arrive, Steps: f.Steps})
+	}
+	// arrivals, systematically: the pool holds a prefix of the chain b1 -> b2 -> b3 -> b4 (three of them
+	// fill a block) with the independent tA at every position or absent; the next chain element or tA
+	// arrives inside CalculateBlock of producer step 1, 2 or 3
+	chainTx := []string{"b1", "b2", "b3", "b4"}
+	for k := 0; k <= len(chainTx); k++ {
+		for pos := -1; pos <= k; pos++ { // -1: tA not submitted
+			var sub []string
+			for i := 0; i < k; i++ {
+				if i == pos {
+					sub = append(sub, "tA")
+				}
+				sub = append(sub, chainTx[i])
+			}
+			if pos == k {
+				sub = append(sub, "tA")
+			}
+			var arr []string
+			if k < len(chainTx) {
+				arr = append(arr, chainTx[k])
+			}
+			if pos == -1 {
+				arr = append(arr, "tA")
+			}
+			for _, a := range arr {
+				for at := 1; at <= 3; at++ {
+					if len(sub) == 0 && at > 1 {
+						continue // nothing to mine before the arrival: the step never runs
+					}
+					cases = append(cases, Case{Family: "arrival_grid", Submit: sub, Big: true, Arrive: a, ArriveStep: at, Steps: 7})
+				}
+			}
+		}
 	}
 	var mu sync.Mutex
 	executed, skipped := 0, 0
@@ -534,6 +643,7 @@ func run(tier core.Tier) *core.Report {
 					}
 					outcomes[c.Family+":"+strings.Join(named, ",")] = true
 					kinds[r.consKind] = true
+					atomic.AddInt64(&arrivalsTotal, int64(r.arrivals))
 					if executed%5000 == 1 {
 						rep.Sample(map[string]interface{}{"case": c, "pool_order": r.pool, "block": r.block})
 					}
@@ -564,6 +674,8 @@ func run(tier core.Tier) *core.Report {
 	rep.Set("cases_skipped_inadmissible_submission_order", skipped)
 	rep.Set("distinct_blocks_produced", len(outcomes))
 	rep.Set("consensus_object", ks)
+	rep.Set("replica_consensus_checks", int(replicaConsensusChecks))
+	rep.Set("transactions_arrived_inside_CalculateBlock", int(arrivalsTotal))
 	rep.Set("bound", fmt.Sprintf("%d pool families, every submission order, every iteration order of the 3 rewritten pool map ranges (site %s: identity+reverse for 4-tx pools in quick)", len(families), sites[1]))
 	rep.Set("exhaustive", !stopped)
 	rep.Assume("the timer transaction is empty (no timer task scheduled) in these universes")
